@@ -68,7 +68,7 @@ class NL:
     # ---- reference evaluation
     def eval2(self, in_vals, st_vals, mask):
         """2-valued: in_vals/st_vals lists of ints (bit-vectors).  Returns dict sig -> int."""
-        v = {}
+        v = {'c0': 0, 'c1': mask}
         for k in range(self.n_in): v[f'i{k}'] = in_vals[k] & mask
         for k, (kind, _) in enumerate(self.states):
             v[f'q{k}'] = st_vals[k] & mask
